@@ -47,6 +47,8 @@ def observe(case):
         m.kekule()
         if case['form'] == 'thiele':
             m.thiele()
+        if case.get('explicit'):
+            m.explicify_hydrogens()
         if case.get('renumber'):
             nums = list(m._atoms)
             new = nums[:]
@@ -67,6 +69,7 @@ def observe(case):
     dom, _ = full_projection(m, rings=True)
     empty = {'atoms': [], 'bonds': [], 'dat': []}
     rec = {'exc': '', 'g': cproj(m, 'number'), 'g0': cproj(m), 'tr0': empty, 'dative': dative, 'tr': empty, 'bk': empty, 'r0': empty, 'fr': empty, 'dom': dom, 'smi': case['smi'], 'a2': empty}
+    rec['bk_s'] = rec['m_s'] = ''
     for k in ('rs_conv', 'rs_ref', 'rs_conv0', 'rs_ref0', 'cs_conv', 'cs_ref', 'cs_conv0', 'cs_ref0', 'rr', 'rr_ref', 'rr0', 'rr_ref0'):
         rec[k] = ''
     try:
@@ -74,14 +77,27 @@ def observe(case):
         rd = to_rdkit_molecule(m, keep_mapping=False)
         rec['tr0'] = rproj(rd, True)
         chk = rd  # to_rdkit_molecule sanitises; sanitising again makes RDKit forget E/Z labels that have no direction marks (RDKit behaviour)
+        if case.get('explicit'):
+            chk = Chem.RemoveHs(chk)  # the reference reading has no hydrogen atoms
         rec['rs_conv'], rec['rs_conv0'] = Chem.MolToSmiles(chk), Chem.MolToSmiles(chk, isomericSmiles=False)
         rec['rs_ref'], rec['rs_ref0'] = Chem.MolToSmiles(ref), Chem.MolToSmiles(ref, isomericSmiles=False)
         bk = from_rdkit_molecule(to_rdkit_molecule(m))
         rec['bk'] = cproj(bk, 'parsed')
+        b2 = from_rdkit_molecule(to_rdkit_molecule(m, keep_mapping=False))
+        n1, n2 = b2.copy(), m.copy()
+        for x in (n1, n2):  # RDKit answers in its aromatic form: compare both in the library's aromatic normal form
+            x.kekule()
+            x.thiele()
+        rec['bk_s'], rec['m_s'] = str(n1), str(n2)
         if dative:
             return rec
         # an RDKit molecule of its own (read from the SMILES RDKit writes)
-        r0 = Chem.MolFromSmiles(Chem.MolToSmiles(ref, doRandom=True))
+        if case.get('explicit'):  # hydrogen atoms stay atoms on the RDKit side, at every position of the neighbour lists
+            pp = Chem.SmilesParserParams()
+            pp.removeHs = False
+            r0 = Chem.MolFromSmiles(Chem.MolToSmiles(Chem.AddHs(ref), doRandom=True, allHsExplicit=False), pp)
+        else:
+            r0 = Chem.MolFromSmiles(Chem.MolToSmiles(ref, doRandom=True))
         if case['form'] == 'kekule':
             Chem.Kekulize(r0, clearAromaticFlags=True)
         if case.get('coords'):
@@ -99,14 +115,15 @@ def observe(case):
         for a in r0.GetAtoms():
             a.SetAtomMapNum(0)
         a1 = fr.copy()
-        a1.kekule()
-        a1.thiele()
         for a in a1._atoms.values():
             a._parsed_mapping = None
         a2 = smiles(Chem.MolToSmiles(r0))
         rec['a2'] = cproj(a2)
-        a2.kekule()
-        a2.thiele()
+        for x in (a1, a2):
+            x.kekule()
+            if case.get('explicit'):  # both sides without plain hydrogen atoms (RDKit's text does not spell all of them as atoms)
+                x.implicify_hydrogens()
+            x.thiele()
         rec['cs_conv'], rec['cs_conv0'] = str(a1), format(a1, '!s')
         rec['cs_ref'], rec['cs_ref0'] = str(a2), format(a2, '!s')
         rr = to_rdkit_molecule(fr, keep_mapping=False)
@@ -128,11 +145,15 @@ def run(ck):
          'C[C@]1(F)CCCO1', 'O=C1CC[C@H]2[C@@H]1CC[C@@H]1COC[C@H]21', '[2H]C([2H])O', 'C[O]', '[OH-]', 'O', 'C#N', 'C1CC1', 'CC(C)(C)c1ccc(O)cc1',
          'N~[Pt](~N)(Cl)Cl', '[Fe]~C', 'C[N+](C)(C)~[Cu]', 'O=C1O[Cu]~N1', '[Pt]~N', 'N~[Pt]', '[CH2]', 'C[C]C', '[H][H]', '[2H]O[3H]', '[NH4+]', '[Cu+2]', 'C[Si](C)(C)C',
          'c1ccc2ccccc2c1', 'C[C@@](F)(Cl)Br', 'F[C@H](Cl)[C@@H](F)Cl', '[13CH3][C@H]([2H])O', 'C[N+](=O)[O-]', 'C=[N+]=[N-]', '[O-][n+]1ccccc1', 'C[S@](=O)CC', 'OP(O)(O)=O',
-         'C1=CC=CC=CC=C1', 'c1ccc2[nH]ccc2c1', 'C/C=C(/F)Cl', 'C/C(F)=C(/Cl)Br', 'C1CC/C=C/CCC1', 'C[C@H]1CC[C@@H](C)CC1', 'N[C@H](C(=O)O)[C@@H](C)O', '[CH3]', 'C[CH]C', '[O][O]']
+         'C1=CC=CC=CC=C1', 'c1ccc2[nH]ccc2c1', 'C/C=C(/F)Cl', 'C/C(F)=C(/Cl)Br', 'C1CC/C=C/CCC1', 'C[C@H]1CC[C@@H](C)CC1', 'N[C@H](C(=O)O)[C@@H](C)O', '[CH3]', 'C[CH]C', '[O][O]',
+         '[2H][C@](F)(Cl)C', 'F[C@]([2H])(Cl)C', 'F[C@](Cl)([2H])C', 'F[C@](Cl)(C)[2H]', '[2H][C@@](F)(Cl)C', 'C[C@@]([3H])(N)C(=O)O', '[2H][C@]1(C)CCCO1', 'N[C@@]([2H])(C)C(O)=O',
+         'C[C@@](F)(Cl)Br', 'CC[C@](C)(N)C(=O)O', 'CC1(C)[C@@H]2CC[C@@]1(C)C(=O)C2']
     cases = []
     for k, s in enumerate(sel):
         cases.append({'key': f'{s}|{"kekule" if k % 2 else "thiele"}|{k % 3}', 'smi': s, 'form': 'kekule' if k % 2 else 'thiele', 'renumber': k % 3 == 1, 'coords': k % 3 == 2,
                       'rs': rnd.randrange(1 << 30)})
+        if ('@' in s and k % 4 == 0 and len(s) < 60) or '[2H]' in s:
+            cases.append({'key': f'{s}|kekule|explicit-hydrogens|{k % 2}', 'smi': s, 'form': 'kekule', 'renumber': bool(k % 2), 'coords': False, 'explicit': True, 'rs': rnd.randrange(1 << 30)})
     cases = ck.select('conversions', cases)
     if cases:
         res = vlib.pmap('checks.c20', 'observe', cases)
